@@ -215,14 +215,26 @@ func runInBubble(c *mc.Ctx, u mc.Unit) {
 	var sub types.GenericSubscriber[types.EpochEvent] = rec
 	var hubCh, hubCh2 <-chan types.EpochEvent
 	second := 0
+	var subscribeSecond func()
+	var joiner interface {
+		Subscribe(string) <-chan types.EpochEvent
+	}
 	if p.Hub {
 		hub := aggsender.NewGenericSubscriberImpl[types.EpochEvent]()
 		hubCh = hub.Subscribe("verif")
 		// a second consumer of the same hub (it reads at once): under another name, or under the same name (two
 		// components of the same kind attached to one publisher)
 		if second = c.Choose(3, "second-subscriber"); second > 0 { //nolint:mnd
-			hubCh2 = hub.Subscribe(map[int]string{1: "verif-2", 2: "verif"}[second])
 			c.Witness(fmt.Sprintf("hub_executions_with_a_second_subscriber/%s", map[int]string{1: "other-name", 2: "same-name"}[second]))
+		}
+		subscribeSecond = func() {
+			// through the notifier itself when it offers Subscribe (as the aggsender components do), else through the hub
+			name := map[int]string{1: "verif-2", 2: "verif"}[second]
+			if joiner != nil {
+				hubCh2 = joiner.Subscribe(name)
+			} else {
+				hubCh2 = hub.Subscribe(name)
+			}
 		}
 		sub = hub
 	}
@@ -232,6 +244,11 @@ func runInBubble(c *mc.Ctx, u mc.Unit) {
 	if err != nil {
 		c.Failf("constructor", "NewEpochNotifierPerBlock: %v", err)
 		return
+	}
+	if j, ok := any(n).(interface {
+		Subscribe(string) <-chan types.EpochEvent
+	}); ok {
+		joiner = j
 	}
 	ctx, cancel := context.WithCancel(context.Background())
 	done := make(chan struct{})
@@ -263,6 +280,13 @@ func runInBubble(c *mc.Ctx, u mc.Unit) {
 			candidates = append(candidates, b)
 		}
 	}
+	joinAt := 0 // the second subscriber joins before the block with this index (0: before the first block)
+	if second > 0 {
+		joinAt = c.Choose(len(candidates)+1, "second-subscriber-joins-before-block")
+		if joinAt > 0 {
+			c.Witness("hub_executions_with_a_late_second_subscriber")
+		}
+	}
 	busyFrom, busyLen := -1, 0
 	var hubGot, hubGot2 []uint64
 	drainFrom := func(ch <-chan types.EpochEvent, into *[]uint64) {
@@ -283,13 +307,21 @@ func runInBubble(c *mc.Ctx, u mc.Unit) {
 			busyLen = 1 + c.Choose(len(candidates)-busyFrom, "subscriber-busy-for-blocks")
 		}
 	}
+	var want2 []ev // what the second subscriber must get: the epochs announced after it joined
 	for i, b := range candidates {
+		if p.Hub && second > 0 && i == joinAt {
+			subscribeSecond()
+			synctest.Wait()
+		}
 		if p.Hub {
 			feed(b)
 			fed = append(fed, b)
 			c.Transition(1)
 			if e := epochOf(p, b); qualifies(p, b) && e > lastEpochAnnounced {
 				want = append(want, ev{e, b, int(epochStart(p, e+1) - b)})
+				if second > 0 && i >= joinAt {
+					want2 = append(want2, ev{e, b, int(epochStart(p, e+1) - b)})
+				}
 				lastEpochAnnounced = e
 			}
 			drainFrom(hubCh2, &hubGot2)
@@ -335,6 +367,10 @@ func runInBubble(c *mc.Ctx, u mc.Unit) {
 		}
 	}
 	if p.Hub {
+		if second > 0 && joinAt >= len(candidates) {
+			subscribeSecond() // it joins after the last block
+			synctest.Wait()
+		}
 		drain()
 		drainFrom(hubCh2, &hubGot2)
 		cancel()
@@ -346,15 +382,15 @@ func runInBubble(c *mc.Ctx, u mc.Unit) {
 			for _, e := range hubGot2 {
 				got2[e]++
 			}
-			for _, w := range want {
+			for _, w := range want2 {
 				if got2[w.Epoch] != 1 {
 					c.Failf("hub/epoch-not-delivered-exactly-once/second-subscriber", "cfg %+v fed %v: epoch %d (announced at block %d) reached the second subscriber (%s) %d times; it received %v, want the epochs of %v",
 						p, fed, w.Epoch, w.AtBlock, map[int]string{1: "another name", 2: "the same name as the first"}[second], got2[w.Epoch], hubGot2, want)
 					break
 				}
 			}
-			if len(hubGot2) > len(want) && !c.Failed() {
-				c.Failf("hub/extra-notification/second-subscriber", "cfg %+v fed %v: the second subscriber received %v, want the epochs of %v", p, fed, hubGot2, want)
+			if len(hubGot2) > len(want2) && !c.Failed() {
+				c.Failf("hub/extra-notification/second-subscriber", "cfg %+v fed %v: the second subscriber joined before block index %d and received %v, want the epochs of %v", p, fed, joinAt, hubGot2, want2)
 			}
 		}
 		got := map[uint64]int{}
